@@ -129,6 +129,7 @@ def explore(job):
     base, seed, tier = job["base"], job["seed"], job["tier"]
     only = job.get("only")          # replay: [(k, torn), ...] chain
     rng = random.Random(core.h64(seed, "torn"))
+    ticks0 = simfs.TICKS[0]
     prob = make_problem(base)
     fs0 = simfs.SimFS(ROOT, bufsize=base["bufsize"])
     with simfs.mounted(fs0):
@@ -203,6 +204,7 @@ def explore(job):
             out["fail"].append({"sig": dict(sig, window=w), "detail": detail, "chain": [[k, torn]],
                                 "nit": base["nit"]})
     out["unique_states"] = len(seen)
+    out["fs_operations"] = simfs.TICKS[0] - ticks0
     # in-situ cross-validation of the journal-cut shortcut on a seeded sample
     killable = [c for c in allcuts if c[0] < len(j)]
     for (k, torn) in rng.sample(killable, min(3 if tier == "quick" else 6, len(killable))):
@@ -312,6 +314,8 @@ def main(argv):
         "exhaustive_note": "crash points of each base run are enumerated exhaustively (every journal boundary + "
                            "torn variants at lengths 1, len-1 and seeded); base runs are sampled",
         "fault_kinds_fired": {"kill_by_window": windows, "torn_writes": tot["torn"], "kill_chains": tot["chain_cuts"]},
+        "simulated_fs_operations": sum(r.get("fs_operations", 0) for r in results if isinstance(r, dict)),
+        "simulated_time_note": "the fake clock advances 1 s per seam operation; no verdict depends on time",
         "probes": {"resume_ok_states": tot["resumed_ok"], "restart_from_scratch": tot["restart_from_scratch"],
                    "insitu_cross_validated_cuts": tot["insitu_checked"]},
         "real_components": ["nifty.re.optimize_kl driver, OptimizeVI, pickle, JAX numerics"],
